@@ -256,15 +256,18 @@ def rule_select(ctx):
             ctx.ob(R, fi, b, ok, "candidates are not scanned highest version first", text="highest-first:" + unparse(a0))
             ctx.ob(R, fi, b, isinstance(b.stmt, ast.Return), "the first struct in range is not returned", text="returns-first")
         else:
-            ut = [t for t in c.nodes if t.kind == "test" and isinstance(t.ast, ast.Compare) and isinstance(t.ast.ops[0], ast.NotIn) and unparse(t.ast.comparators[0]) == "versions"]
-            at = [t for t in c.nodes if t.kind == "test" and unparse(t.ast) == "self.ALLOW_UNKNOWN_API_VERSION"]
-            ok = len(ut) == 1 and len(at) == 1 and c.dominated_by_branch(ut[0], "T", b) and c.dominated_by_branch(at[0], "T", b) and unparse(a0) == "self._CLASSES[0]"
+            # decided on guard facts (either polarity of the membership test, either order of the two arms)
+            fb_ = must_facts(c)[b]
+            ok = any(a[1] == "not in" and a[2] == "versions" for a in fb_) and ("self.ALLOW_UNKNOWN_API_VERSION", "truthy", "") in fb_ and unparse(a0) == "self._CLASSES[0]"
             ctx.ob(R, fi, b, ok, "a struct is built without consulting the broker's range (allowed only for ALLOW_UNKNOWN_API_VERSION on an unknown key, lowest version)", text="unknown-key-build")
-    ut = [t for t in c.nodes if t.kind == "test" and isinstance(t.ast, ast.Compare) and isinstance(t.ast.ops[0], ast.NotIn) and unparse(t.ast.comparators[0]) == "versions"]
+    ut = [t for t in c.nodes if t.kind == "test" and isinstance(t.ast, ast.Compare) and isinstance(t.ast.ops[0], (ast.NotIn, ast.In)) and unparse(t.ast.comparators[0]) == "versions"]
     if ut:
-        tb = c.reachable([m for m, l in ut[0].succ if l == "T"], include_src=True)
+        unknown_arm = "T" if isinstance(ut[0].ast.ops[0], ast.NotIn) else "F"
+        tb = c.reachable([m for m, l in ut[0].succ if l == unknown_arm], include_src=True)
         ok = any(n.kind == "raise" and "IncompatibleBrokerVersion" in unparse(n.ast.exc) for n in tb) and rng not in tb
         ctx.ob(R, fi, ut[0], ok, "an API key the broker did not advertise does not raise IncompatibleBrokerVersion", text="unknown-key-raises")
+    else:
+        ctx.ob(R, fi, fi.node, False, "prepare() does not test whether the broker advertised the API key", text="unknown-key-raises")
     # no match -> raise, never fall off the end
     ok = c.exit not in c.reachable([rng], avoid=[n for n in c.nodes if n.kind == "return"], exc=False)
     ctx.ob(R, fi, fi.node, ok, "prepare() can return None when no version is in range", text="no-match-raises")
